@@ -768,6 +768,9 @@ def setslice(E, obj, lo, hi, v):
 
 # ------------------------------------------------------------------ attributes
 
+# library base classes that contribute no attributes of their own beyond object's
+PLAIN_BASES = {'ExtensionClass.Base', 'object'}
+
 STR_METHODS = {'lower', 'upper', 'strip', 'find', 'rfind', 'split', 'replace', 'startswith',
                'endswith', 'join', 'capitalize', 'format', 'encode', 'decode', 'translate',
                'lstrip', 'rstrip', 'index', 'count', 'isdigit', 'title'}
@@ -783,6 +786,16 @@ def raw_getattr(E, obj, name):
         return E.fresh_opaque('class')
     if name in h.fields:
         return h.fields[name]
+    if name in h.absent:
+        _raise('AttributeError', name)
+    if name in h.maybe:
+        if E.spec_mode:
+            raise Unsupported('spec read of maybe-absent attribute ' + name)
+        if E.decide(2, 'attr %s absent' % name) == 1:
+            h.absent.add(name)
+            h.maybe.discard(name)
+            _raise('AttributeError', name)
+        h.maybe.discard(name)
     if isinstance(h.cls, VCls):
         a = h.cls.lookup(name)
         if a is not None:
@@ -799,7 +812,8 @@ def raw_getattr(E, obj, name):
         ga = h.cls.lookup('__getattr__')
         if ga is not None:
             return E.call(ga, [obj, VC(name)])
-        if any(not isinstance(b, VCls) for c in h.cls.mro() for b in c.bases):
+        if any(not isinstance(b, VCls) and not (isinstance(b, VBI) and b.name in PLAIN_BASES)
+               for c in h.cls.mro() for b in c.bases):
             # inherits from a library class we do not model
             if name.startswith('__') and name.endswith('__'):
                 _raise('AttributeError', name)
@@ -877,6 +891,8 @@ def getattr_(E, obj, name):
             if name.startswith('__'):
                 return VBM(VBI('object.' + name), obj)
             _raise('AttributeError', name)
+        if name == '__class__':
+            return B.VTypeOf(obj)
         key = ('attr', obj.name, name)
         if key in E.ghost:
             return E.ghost[key]
@@ -887,7 +903,16 @@ def getattr_(E, obj, name):
         o = VO_term(f(obj.t), '%s.%s' % (obj.name, name))
         E.ghost[key] = o
         return o
+    if isinstance(obj, B.VTypeOf):
+        if name == '__name__':
+            f = z3.Function('class_name', Val, z3.StringSort())
+            return VS(f(E.to_val(obj.of) if not isinstance(obj.of, VExc) else z3.Const('exc!%s' % obj.of.uid, Val)))
+        if name == '__bases__':
+            return E.fresh_opaque('bases')
+        raise Unsupported('attribute %s of type(x)' % name)
     if isinstance(obj, VBI):
+        if name == '__name__' and obj.name in EXC_PARENT:
+            return VC(obj.name)
         return VBI(obj.name + '.' + name)
     if isinstance(obj, VFn):
         if name == '__name__':
@@ -915,6 +940,8 @@ def setattr_(E, obj, name, v):
                     E.call(sa, [obj, VC(name), v])
                     return
             h.fields[name] = v
+            h.absent.discard(name)
+            h.maybe.discard(name)
             E.trace.append(('setattr', obj.addr, name, h.prov, bool(E.ghost.get('locks'))))
             return
     if isinstance(obj, VO):
